@@ -47,6 +47,7 @@ type obs struct {
 	Stmts      []string         `json:"stmts,omitempty"`
 	Down       []string         `json:"down,omitempty"`
 	Second2    []string         `json:"second_changes,omitempty"`
+	MustRefuse bool             `json:"mustrefuse"`
 }
 
 func value(k int, col string, c sq.Col) string {
@@ -418,8 +419,9 @@ func oneInline(id int, p pair, dir string, fromEmpty bool) (o obs, applicable bo
 // oneCLI repeats the flow of one() through the real CLI binary (VERIF_ATLAS): the desired state is created on a second database,
 // exported with `schema inspect` (HCL) and applied to the populated current database with `schema apply --auto-approve`; the diff
 // afterwards comes from `schema diff`. Projection and rows are read by the harness, as in one().
-func oneCLI(id int, p pair, dir string) (o obs) {
+func oneCLI(id int, p pair, dir string, mustRefuse bool) (o obs) {
 	o = obs{ID: id, From: sq.Canon(p.From), To: sq.Canon(p.To), After: sq.State{}, Undone: sq.State{}, Before: map[string][]row{}, Rows: map[string][]row{}}
+	o.MustRefuse = mustRefuse
 	atlas := os.Getenv("VERIF_ATLAS")
 	base := filepath.Join(dir, fmt.Sprintf("cli%d", id))
 	os.MkdirAll(base, 0o755)
@@ -480,6 +482,23 @@ func oneCLI(id int, p pair, dir string) (o obs) {
 	os.WriteFile(hp, []byte(hcl), 0o644)
 	out, err := run("schema", "apply", "--url", "sqlite://"+cur+"?_fk=1", "--to", "file://"+hp, "--dev-url", "sqlite://dev?mode=memory", "--auto-approve")
 	o.Stmts = []string{out}
+	if mustRefuse {
+		// the change cannot be carried out on the populated table: whatever the CLI answered, report what the database looks like now
+		if err != nil {
+			o.Err = "schema apply: " + out
+		}
+		db, err2 := sql.Open("sqlite3", "file:"+cur+"?_fk=1")
+		if err2 != nil {
+			o.Skipped = err2.Error()
+			return
+		}
+		defer db.Close()
+		if a, err2 := sq.Project(db); err2 == nil {
+			o.After = sq.Canon(a)
+			o.Rows, _ = readRows(db, o.After)
+		}
+		return
+	}
 	if err != nil {
 		if strings.Contains(out, "foreign key mismatch") {
 			// the rows do not satisfy a foreign key of the desired state (e.g. NULLs replaced by a default without parent): the CLI
@@ -555,7 +574,25 @@ func main() {
 			}
 		}
 	}
-	cres := make([]obs, len(cliIdx))
+	// the CLI slice: the sampled pairs followed by the inadmissible pairs (VERIF_REFUSE), which only the CLI's transaction can judge
+	var cpairs []pair
+	for _, i := range cliIdx {
+		cpairs = append(cpairs, pairs[i])
+	}
+	if rp := os.Getenv("VERIF_REFUSE"); rp != "" && len(cliIdx) > 0 {
+		if rf, err := os.Open(rp); err == nil {
+			rs := bufio.NewScanner(rf)
+			rs.Buffer(make([]byte, 1<<20), 1<<26)
+			for rs.Scan() {
+				var p pair
+				if json.Unmarshal(rs.Bytes(), &p) == nil {
+					cpairs = append(cpairs, p)
+				}
+			}
+			rf.Close()
+		}
+	}
+	cres := make([]obs, len(cpairs))
 	var wg sync.WaitGroup
 	ch := make(chan int)
 	for w := 0; w < workers; w++ {
@@ -579,11 +616,11 @@ func main() {
 			go func() {
 				defer wg.Done()
 				for k := range ch2 {
-					cres[k] = oneCLI(k+1, pairs[cliIdx[k]], dir)
+					cres[k] = oneCLI(k+1, cpairs[k], dir, k >= len(cliIdx))
 				}
 			}()
 		}
-		for k := range cliIdx {
+		for k := range cpairs {
 			ch2 <- k
 		}
 		close(ch2)
